@@ -299,7 +299,7 @@ fn formula_holds(at: &[Goal], g: &[Term]) -> bool {
     })
 }
 
-fn decode_scale(s: &mut Source, thorough: bool) -> Program {
+pub fn decode_scale(s: &mut Source, thorough: bool) -> Program {
     use crate::gen::scale;
     let nq = 2 + s.below(5);
     let n = scale::size(s, scale::cap(thorough));
